@@ -984,6 +984,7 @@ func lruStress(capacity, nkeys, nthreads, nops int, seed uint64, naudit, nvals i
 	var wg sync.WaitGroup
 	var crashed atomic.Bool
 	var start atomic.Bool
+	var wrong atomic.Int64
 	for t := 0; t < nthreads; t++ {
 		wg.Add(1)
 		go func(t int) {
@@ -1000,9 +1001,9 @@ func lruStress(capacity, nkeys, nthreads, nops int, seed uint64, naudit, nvals i
 			for i := 0; i < nops/nthreads; i++ {
 				k := r.Intn(nkeys)
 				if r.Intn(3) == 0 {
-					c.Put(&keys[k], vals[r.Intn(len(vals))])
-				} else {
-					c.Get(&keys[k])
+					c.Put(&keys[k], vals[k%len(vals)]) // key k is only ever bound to value k mod nvals
+				} else if x := c.Get(&keys[k]); x != nil && x != vals[k%len(vals)] {
+					wrong.Add(1) // a value that was never stored under this key
 				}
 			}
 		}(t)
@@ -1011,6 +1012,9 @@ func lruStress(capacity, nkeys, nthreads, nops int, seed uint64, naudit, nvals i
 	wg.Wait()
 	if crashed.Load() {
 		return "panic runtime"
+	}
+	if n := wrong.Load(); n > 0 {
+		return "fail a Get returned a value bound to another key (" + itoa(int(n)) + " times)"
 	}
 	akeys := make([]curve.CompressedEdwardsY, naudit)
 	for i := range akeys {
